@@ -30,7 +30,9 @@ def run(chk, replay=None):
         seen.add(j["id"])
         cfg = j["cfg"]; nd = needs[j["id"]]
         mx = {c: max(n[c] for n in nd) for c in cfg["conns"]}
-        by_node = {nm: sorted(mx[c] for c in cfg["conns"] if cfg["conns"][c]["out"] == nm) for nm in cfg["nodes"]}
+        # a connection whose reader has no running cell in the supergraph (e.g. a pruned sink) is never read: buffer_need is the empty maximum
+        # (hugely negative) and rex lists no size for that reader
+        by_node = {nm: sorted(mx[c] for c in cfg["conns"] if cfg["conns"][c]["out"] == nm and mx[c] > -10 ** 9) for nm in cfg["nodes"]}
         impl = {nm: sorted(v) for nm, v in r["impl_sizes"].items()}
         if by_node != {nm: impl.get(nm, []) for nm in cfg["nodes"]}:
             chk.violation("buffer-sizes-differ-from-spec", f"Timings.get_buffer_sizes() = {impl}, specification (max over positions of written - still-needed + 1) = {by_node}", case)
